@@ -121,6 +121,57 @@ func (ec *evalCtx) specCall(call *ast.CallExpr) Value {
 	case "pos3":
 		need(3)
 		return &StructV{Names: []string{"Index", "Line", "Col"}, F: map[string]Value{"Index": arg(0), "Line": arg(1), "Col": arg(2)}}
+	case "runeStart":
+		// runeStart(s, k): byte offset k of s is where `for range s` (equivalently repeated DecodeRuneInString)
+		// starts decoding a rune. Facts are published by range loops over s.
+		need(2)
+		return App("utf8.start", SBool, scalar(arg(0)), scalar(arg(1)))
+	case "nlCount", "lineStart":
+		// nlCount(s, i): number of line feeds in s[:i]; lineStart(s, i): offset just after the last line feed of
+		// s[:i] (0 if none). Range loops over s publish the step facts (a line feed is a rune of its own).
+		need(2)
+		sT, iT := scalar(arg(0)), scalar(arg(1))
+		cnt := func(i *Term) *Term { return App("nl.count", SInt, sT, i) }
+		ls := func(i *Term) *Term { return App("nl.start", SInt, sT, i) }
+		ec.st.Assume(And(Eq(cnt(Int(0)), Int(0)), Eq(ls(Int(0)), Int(0))))
+		ec.st.Assume(Implies(Ge(iT, Int(0)), And(Ge(cnt(iT), Int(0)), Le(cnt(iT), iT), Le(Int(0), ls(iT)), Le(ls(iT), iT))))
+		// byte-level facts about concatenations and single encoded runes (needed to follow the text a writer has produced)
+		var catFacts func(x *Term)
+		catFacts = func(x *Term) {
+			full := func(y *Term) (*Term, *Term) {
+				return App("nl.count", SInt, y, StrLen(y)), App("nl.start", SInt, y, StrLen(y))
+			}
+			switch {
+			case x.Op == "str.++" && len(x.Args) >= 2:
+				a, b := Concat(x.Args[:len(x.Args)-1]...), x.Args[len(x.Args)-1]
+				ca, la := full(a)
+				cb, lb := full(b)
+				cx, lx := full(x)
+				ec.st.Assume(And(Eq(cx, Add(ca, cb)), Eq(lx, Ite(Eq(cb, Int(0)), la, Add(StrLen(a), lb)))))
+				ec.st.Assume(And(Ge(ca, Int(0)), Ge(cb, Int(0)), Le(Int(0), la), Le(la, StrLen(a)), Le(Int(0), lb), Le(lb, StrLen(b))))
+				ec.e().trusted["spec functions nlCount / lineStart distribute over concatenation (byte-level counting; not mechanically derived from the step facts)"] = true
+				catFacts(a)
+				catFacts(b)
+			case x.Op == "ite" && len(x.Args) == 3:
+				catFacts(x.Args[1])
+				catFacts(x.Args[2])
+			case x.Op == "app" && x.Name == "utf8.encode" && len(x.Args) == 1:
+				cx, lx := full(x)
+				nl := Eq(x.Args[0], Int(10))
+				ec.st.Assume(And(Eq(cx, Ite(nl, Int(1), Int(0))), Eq(lx, Ite(nl, Int(1), Int(0)))))
+			case x.Op == "str":
+				n := int64(strings.Count(x.Str, "\n"))
+				cx, lx := full(x)
+				ec.st.Assume(And(Eq(cx, Int(n)), Eq(lx, Int(int64(strings.LastIndex(x.Str, "\n")+1)))))
+			}
+		}
+		if iT.Key() == StrLen(sT).Key() {
+			catFacts(sT)
+		}
+		if name == "nlCount" {
+			return cnt(iT)
+		}
+		return ls(iT)
 	case "partOffset":
 		// partOffset(s, sep, j): byte offset of part j of Split(s, sep) within s:
 		//   off(0) = 0, off(j+1) = off(j) + len(part j) + len(sep); off(j) + len(part j) <= len(s)
@@ -134,6 +185,12 @@ func (ec *evalCtx) specCall(call *ast.CallExpr) Value {
 		ec.st.Assume(Implies(Gt(j, Int(0)), Eq(off(j), Add(Add(off(prev), StrLen(part(prev))), StrLen(sep)))))
 		ec.st.Assume(Implies(And(Le(Int(0), j), Lt(j, ln)), And(Le(Int(0), off(j)), Le(Add(off(j), StrLen(part(j))), StrLen(s)),
 			Eq(Substr(s, off(j), Add(off(j), StrLen(part(j)))), part(j)))))
+		// the same facts for every part (needed when j is bound by a quantifier)
+		q := Var("part?", SInt)
+		qp := Sub(q, Int(1))
+		ec.st.Assume(Forall([]*Term{q}, And(
+			Implies(Gt(q, Int(0)), Eq(off(q), Add(Add(off(qp), StrLen(part(qp))), StrLen(sep)))),
+			Implies(And(Le(Int(0), q), Lt(q, ln)), And(Le(Int(0), off(q)), Le(Add(off(q), StrLen(part(q))), StrLen(s)))))))
 		ec.e().trusted["std:strings.Split (offsets of the parts within the string: off(j+1) = off(j) + len(part j) + len(sep))"] = true
 		return off(j)
 	case "splitJoin":
